@@ -327,33 +327,63 @@ Proof. destruct o; cbn [vop_text vop_toks]; repeat (apply lexes_cons; [reflexivi
 Lemma nows_vop o x : nows (vop_text o ++ x).
 Proof. destruct o; reflexivity. Qed.
 
-Lemma lexes_vtext v : opt_ok epoch_ok (v_epoch v) = true -> ident_ok (v_ver v) = true ->
-  lexes (vtext v) (vtext_toks v) noid.
+Lemma lexes_colon_pieces ps : forallb ident_ok ps = true ->
+  lexes (flat_map (fun s => 58%N :: s) ps) (flat_map (fun s => [(COLON, [58%N]); (IDENT, s)]) ps) noid.
 Proof.
-  intros He Hv. unfold vtext, vtext_toks. destruct (v_epoch v) as [e|]; cbn [opt_ok] in He.
+  induction ps as [|s r IH]; intros H; cbn [flat_map].
+  - eapply lexes_weaken; [apply lexes_nil|intros; exact I].
+  - cbn [forallb] in H. apply andb_true_iff in H. destruct H as [Hs Hr]. cbn [app].
+    apply lexes_cons; [reflexivity|].
+    apply lexes_ident_app; [exact Hs|apply IH, Hr|].
+    intros rest Hq. destruct r as [|s' r']; [exact Hq|reflexivity].
+Qed.
+
+Lemma vclause_ok_inv v : vclause_ok v = true ->
+  ws_ok (v_ws0 v) = true /\ ws_ok (v_ws1 v) = true /\ ws_ok (v_ws2 v) = true /\ ws_ok (v_ws3 v) = true /\
+  opt_ok epoch_ok (v_epoch v) = true /\ ident_ok (v_ver v) = true /\ forallb ident_ok (v_more v) = true /\
+  (v_epoch v = None -> v_more v = []).
+Proof.
+  unfold vclause_ok. intros H.
+  repeat (apply andb_true_iff in H; let H' := fresh "V" in destruct H as [H H']).
+  repeat split; try assumption.
+  intros E. rewrite E in V. destruct (v_more v); [reflexivity|discriminate].
+Qed.
+
+Lemma noid_pieces ps x : noid x -> noid (flat_map (fun s => 58%N :: s) ps ++ x).
+Proof. intros Hx. destruct ps as [|s r]; [exact Hx|reflexivity]. Qed.
+
+Lemma lexes_vtext v : opt_ok epoch_ok (v_epoch v) = true -> ident_ok (v_ver v) = true ->
+  forallb ident_ok (v_more v) = true -> lexes (vtext v) (vtext_toks v) noid.
+Proof.
+  intros He Hv Hm. unfold vtext, vtext_toks.
+  assert (Hbody : lexes (v_ver v ++ flat_map (fun p => 58%N :: p) (v_more v))
+                        ((IDENT, v_ver v) :: flat_map (fun p => [(COLON, [58%N]); (IDENT, p)]) (v_more v)) noid).
+  { apply lexes_ident_app; [exact Hv|apply lexes_colon_pieces, Hm|]. intros rest Hq. apply noid_pieces, Hq. }
+  destruct (v_epoch v) as [e|]; cbn [opt_ok] in He.
   - rewrite <- app_assoc. cbn [app]. apply lexes_ident_app; [apply epoch_ident, He| |intros rest _; reflexivity].
-    apply lexes_cons; [reflexivity|]. apply lexes_ident, Hv.
-  - cbn [app]. apply lexes_ident, Hv.
+    apply lexes_cons; [reflexivity|]. exact Hbody.
+  - cbn [app]. exact Hbody.
 Qed.
 
 Lemma nows_vtext v x : opt_ok epoch_ok (v_epoch v) = true -> ident_ok (v_ver v) = true -> nows (vtext v ++ x).
 Proof.
   intros He Hv. unfold vtext. destruct (v_epoch v) as [e|]; cbn [opt_ok] in He.
   - rewrite <- !app_assoc. apply stops_ws_ident, epoch_ident, He.
-  - cbn [app]. apply stops_ws_ident, Hv.
+  - cbn [app]. rewrite <- !app_assoc. apply stops_ws_ident, Hv.
 Qed.
 
 Lemma lexes_vclause v : vclause_ok v = true -> lexes (vclause_text v) (vclause_toks v) any.
 Proof.
-  intros H. unfold vclause_ok in H. andb_split H. unfold vclause_text, vclause_toks, vbody_text, vbody_toks.
-  apply lexes_ws_app; [exact H| |intros rest _; reflexivity].
+  intros H. destruct (vclause_ok_inv v H) as (W0 & W1 & W2 & W3 & He & Hv & Hm & _).
+  unfold vclause_text, vclause_toks, vbody_text, vbody_toks.
+  apply lexes_ws_app; [exact W0| |intros rest _; reflexivity].
   apply lexes_cons; [reflexivity|].
-  apply lexes_ws_app; [exact W3| |intros rest _; rewrite <- app_assoc; apply nows_vop].
+  apply lexes_ws_app; [exact W1| |intros rest _; rewrite <- app_assoc; apply nows_vop].
   eapply lexes_app; [apply lexes_vop| |intros; exact I].
   apply lexes_ws_app; [exact W2| |intros rest _; rewrite <- app_assoc; apply nows_vtext; assumption].
   eapply lexes_app; [apply lexes_vtext; assumption| |].
-  - apply lexes_ws_app; [exact W1|apply lexes_single; reflexivity|intros rest _; reflexivity].
-  - intros rest _. rewrite <- app_assoc. apply noid_ws_app; [exact W1|reflexivity].
+  - apply lexes_ws_app; [exact W3|apply lexes_single; reflexivity|intros rest _; reflexivity].
+  - intros rest _. rewrite <- app_assoc. apply noid_ws_app; [exact W3|reflexivity].
 Qed.
 
 Lemma lexes_qual q : qual_ok q = true -> lexes (qual_text q) (qual_toks q) noid.
@@ -372,8 +402,8 @@ Proof.
 Qed.
 Lemma noid_vclause v x : vclause_ok v = true -> noid (vclause_text v ++ x).
 Proof.
-  intros H. unfold vclause_ok in H. andb_split H. unfold vclause_text. rewrite <- app_assoc.
-  apply noid_ws_app; [exact H|reflexivity].
+  intros H. destruct (vclause_ok_inv v H) as (W0 & _). unfold vclause_text. rewrite <- app_assoc.
+  apply noid_ws_app; [exact W0|reflexivity].
 Qed.
 Lemma noid_group o c g x : is_ident_char o = false -> group_ok g = true -> noid (group_text o c g ++ x).
 Proof.
